@@ -14,11 +14,14 @@ use stun_types::attribute::*;
 use stun_types::message::*;
 use stun_types::TransportType;
 
-pub const ADDRS: [&str; 8] = ["4:c0000201:3478", "4:c0000201:3479", "6:20010db8000000000000000000000001:3478", "4:0a000001:9",
+pub const ADDRS: [&str; 10] = ["4:c0000201:3478", "4:c0000201:3479", "6:20010db8000000000000000000000001:3478", "4:0a000001:9",
     // an IPv4-mapped IPv6 address and the IPv4 address it maps: they are different socket addresses
     "6:00000000000000000000ffffc0000207:3478", "4:c0000207:3478",
     // one link-local IP and port under two scope ids: two different socket addresses
-    "6:fe800000000000000000000000000001%2:3478", "6:fe800000000000000000000000000001%3:3478"];
+    "6:fe800000000000000000000000000001%2:3478", "6:fe800000000000000000000000000001%3:3478",
+    // the same again with a non-zero IPv6 flow label, and a global address that differs from ADDRS[2] in the flow label only:
+    // SocketAddr equality includes scope id and flow label
+    "6:fe800000000000000000000000000001%3.4660:3478", "6:20010db8000000000000000000000001%0.7:3478"];
 pub const TIDS: [u128; 5] = [0x01, 0x0203_0405_0607_0809_0a0b_0c0d, 0xffff_ffff_ffff_ffff_ffff_ffff, 0x2112_a442, 0x7000_0000_0000_0000_0000_0001];
 
 pub fn addr_of(s: &str) -> SocketAddr {
@@ -29,7 +32,11 @@ pub fn addr_of(s: &str) -> SocketAddr {
         let b = unhex(ip).unwrap();
         let mut a = [0u8; 16];
         a.copy_from_slice(&b);
-        return SocketAddr::V6(std::net::SocketAddrV6::new(a.into(), p[2].parse().unwrap(), 0, scope.parse().unwrap()));
+        let (scope, flow) = match scope.split_once('.') {
+            Some((sc, fl)) => (sc.parse().unwrap(), fl.parse().unwrap()),
+            None => (scope.parse().unwrap(), 0u32),
+        };
+        return SocketAddr::V6(std::net::SocketAddrV6::new(a.into(), p[2].parse().unwrap(), flow, scope));
     }
     let kv_s = format!("x fam={} ip={} port={}", p[0], p[1], p[2]);
     let (_, kv) = Kv::parse(&kv_s);
@@ -39,6 +46,7 @@ pub fn addr_of(s: &str) -> SocketAddr {
 pub fn addr_str(a: SocketAddr) -> String {
     match a {
         SocketAddr::V4(a) => format!("4:{}:{}", hex(&a.ip().octets()), a.port()),
+        SocketAddr::V6(a) if a.flowinfo() != 0 => format!("6:{}%{}.{}:{}", hex(&a.ip().octets()), a.scope_id(), a.flowinfo(), a.port()),
         SocketAddr::V6(a) if a.scope_id() != 0 => format!("6:{}%{}:{}", hex(&a.ip().octets()), a.scope_id(), a.port()),
         SocketAddr::V6(a) => format!("6:{}:{}", hex(&a.ip().octets()), a.port()),
     }
